@@ -309,6 +309,8 @@ def work(arg):
 
 
 def run(rep, tier):
+    from .. import scale
+    scale.run(rep, PROP, tier)          # size ladders (seedverif/scale.py): the entries that concern this property
     rng = core.rng_for(PROP)
     jobs = []
     nmax = 3 if tier == "quick" else 4
